@@ -1,6 +1,6 @@
 (* C03, part 2: cells, rows and frames -- reading a cell after a sequence of column assignments, rows determined by their
    cells, with_columns / select / filter on indexed rows; expressions only see the columns they mention. *)
-From Coq Require Import List Bool Arith ZArith QArith String Lia Permutation.
+From Coq Require Import List Bool Arith ZArith QArith String Lia Permutation FinFun.
 Import ListNotations.
 From DA Require Import Base.PyRT Base.PyStr Base.Val Model.Sem Model.PolarsExec Proofs.SemBasicP Proofs.PolarsP1.
 Local Open Scope string_scope.
@@ -241,7 +241,7 @@ Proof.
     destruct (scalar_vocab_no_temp _ _ (H on I)) as [_ B]. congruence.
 Qed.
 
-Lemma req_temps_vocab es : forallb expr_vocab es = true -> req_temps es = [].
+Lemma req_temps_vocab z o es : forallb expr_vocab es = true -> req_temps z o es = [].
 Proof.
   intros V. unfold req_temps.
   assert (existsb needs_zero es = false) as Z.
@@ -285,3 +285,33 @@ Proof.
   rewrite <- (map_id rs) at 2. apply map_ext_in. intros r I. apply get_map_self; [exact N|].
   unfold width_ok in W. simpl in W. rewrite Forall_forall in W. auto.
 Qed.
+
+(* ------------------------------------------------------------------ scratch names are chosen away from the names in use *)
+Fixpoint pre_us (k : nat) (b : string) : string := match k with O => b | S k' => pre_us k' ("_" ++ b)%string end.
+Lemma pre_us_length k b : String.length (pre_us k b) = (k + String.length b)%nat.
+Proof. revert b. induction k as [|k IH]; intros b; simpl; [reflexivity|]. rewrite IH. simpl. lia. Qed.
+
+Lemma unused_in_all taken fuel b : In (unused_name fuel b taken) taken -> forall k, (k <= fuel)%nat -> In (pre_us k b) taken.
+Proof.
+  revert b. induction fuel as [|f IH]; intros b H k L; cbn [unused_name] in H.
+  - assert (k = 0%nat) as -> by lia. simpl. destruct (mem b taken); exact H.
+  - destruct (mem b taken) eqn:M.
+    + destruct k as [|k]; [simpl; apply mem_In; exact M|]. simpl. apply IH; [exact H|lia].
+    + apply mem_false in M. contradiction.
+Qed.
+
+Lemma fresh_not_in base taken : ~ In (fresh base taken) taken.
+Proof.
+  unfold fresh. intros H. pose proof (unused_in_all taken _ base H) as A.
+  set (n := List.length taken) in *.
+  set (cands := map (fun k => pre_us k base) (seq 0 (S (S n)))).
+  assert (NoDup cands) as ND.
+  { apply (NoDup_map_inv String.length). unfold cands. rewrite map_map.
+    rewrite (map_ext _ (fun k => (k + String.length base)%nat)) by (intros k; apply pre_us_length).
+    apply Injective_map_NoDup; [|apply seq_NoDup]. intros x y E. lia. }
+  assert (incl cands taken) as IN.
+  { intros c I. unfold cands in I. apply in_map_iff in I. destruct I as [k [<- Ik]]. apply in_seq in Ik. apply A. lia. }
+  pose proof (NoDup_incl_length ND IN) as L. unfold cands in L. rewrite map_length, seq_length in L. fold n in L. lia.
+Qed.
+Lemma fresh_not_in_sub base taken sub : (forall c, In c sub -> In c taken) -> ~ In (fresh base taken) sub.
+Proof. intros S I. apply (fresh_not_in base taken). apply S. exact I. Qed.
